@@ -10,7 +10,7 @@
  *     maxima, each label holds exactly one (whole) regional maximum, each label connected,
  *   - require: every circular shift of the direction axis gives the shifted partition up to
  *     renaming of labels,
- *   - labels of constant spectra are all 0; labels never exceed nk*nth; every call returns
+ *   - labels of constant spectra are all equal (one basin); labels never exceed nk*nth; every call returns
  *     within a CPU-time cap (ITIMER_VIRTUAL).
  *
  * Modes
@@ -156,7 +156,8 @@ static const char *oracle(const float *spec, int nk, int nth, int ih, const int 
     if (lab[i] < 0 || lab[i] > n) { why = "label-out-of-range"; goto done2; }
   discretise(spec, n, ih, lev, &constant);
   if (constant) {
-    for (i = 0; i < n; i++) if (lab[i] != 0) { why = "constant-not-zero"; goto done2; }
+    /* outside C04; one whole-grid basin (or the historical "no basin" map) is all that is accepted */
+    for (i = 0; i < n; i++) if (lab[i] != lab[0] || lab[i] > 1) { why = "constant-not-uniform"; goto done2; }
     goto done2;
   }
   for (i = 0; i < n; i++) {
